@@ -34,10 +34,44 @@ function syntaxOne(c) {
   }
 }
 
+// ---------------------------------------------------------------- universal logging proxy
+const uNames = new WeakMap();
+function primOf(name) { let h = 0; for (let i = 0; i < name.length; i++) h = (h * 31 + name.charCodeAt(i)) % 89; return h + 2; }
+function mkU(name, log, opts) {
+  if (name.length > 60) name = name.slice(0, 28) + '~' + name.slice(-28);
+  opts = opts || {};
+  const target = (function () {}).bind();
+  const sub = (n) => mkU(n, log, {});
+  const h = {
+    get(t, k) {
+      if (k === Symbol.toPrimitive) return (hint) => { log.push(name + ':prim:' + hint); return primOf(name); };
+      if (k === Symbol.iterator) return function* () { log.push(name + ':iter'); yield sub(name + '[i0]'); yield sub(name + '[i1]'); };
+      if (typeof k === 'symbol') return undefined;
+      if (k === 'then' || k === '__tag') return undefined;
+      log.push('get ' + name + '.' + k);
+      if (opts.nullish === k) return undefined;
+      return sub(name + '.' + k);
+    },
+    set(t, k, v) { log.push('set ' + name + '.' + String(k) + '=' + ser(v)); return true; },
+    has(t, k) { log.push('has ' + name + '.' + String(k)); return true; },
+    deleteProperty(t, k) { log.push('delete ' + name + '.' + String(k)); return true; },
+    apply(t, thisArg, args) { log.push('call ' + name + ' this=' + ser(thisArg) + ' args=' + args.map(x => ser(x)).join(',')); return sub(name + '()'); },
+    construct(t, args, nt) { log.push('new ' + name + ' args=' + args.map(x => ser(x)).join(',') + (nt === px ? '' : ' nt=' + ser(nt))); return sub('new ' + name); },
+    ownKeys() { log.push('keys ' + name); return ['k1', 'k2']; },
+    getOwnPropertyDescriptor(t, k) { if (k === 'k1' || k === 'k2') return { value: sub(name + '.' + k), enumerable: true, configurable: true, writable: true }; return undefined; },
+    getPrototypeOf() { return Function.prototype; },
+    defineProperty(t, k, d) { log.push('define ' + name + '.' + String(k)); return true; },
+  };
+  const px = new Proxy(target, h);
+  uNames.set(px, name);
+  return px;
+}
+
 // ---------------------------------------------------------------- canonical serialisation
 function ser(v, depth, seen) {
   depth = depth || 0;
   const t = typeof v;
+  if ((t === 'function' || t === 'object') && v !== null && uNames.has(v)) return 'U<' + uNames.get(v) + '>';
   if (v === null) return 'null';
   if (t === 'undefined') return 'undefined';
   if (t === 'number') return Object.is(v, -0) ? '-0' : 'n:' + String(v);
@@ -97,7 +131,7 @@ let sharedCtx = null;
 function newCtx() {
   const sandbox = { console: { log() {}, error() {}, warn() {}, info() {}, debug() {} } };
   const ctx = vm.createContext(sandbox);
-  vm.runInContext('globalThis.globalThis = globalThis;', ctx);
+  vm.runInContext('globalThis.globalThis = globalThis; Function.prototype.toString = function toString() { return "function(){[src]}" }; Object.defineProperty(Error.prototype, "stack", {get(){return ""}, set(){}, configurable:true}); Error.captureStackTrace = function(){};', ctx);
   return ctx;
 }
 
@@ -106,6 +140,7 @@ function makeArgs(spec, log) {
   return spec.map((s, idx) => {
     if (s === null || typeof s !== 'object') return s;
     if (s.t === 'undef') return undefined;
+    if (s.t === 'U') return mkU(s.n, log, s);
     if (s.t === 'num') return Number(s.v);
     if (s.t === 'big') return BigInt(s.v);
     if (s.t === 'str') return s.v;
@@ -169,7 +204,7 @@ function runOne(code, c) {
       let res;
       try {
         const args = makeArgs(spec, log);
-        const r = f.apply(c.thisObj ? { tag: 'this' } : undefined, [H].concat(args));
+        const r = f.apply(mkU('T', log), [H].concat(args));
         res = 'ret=' + ser(r);
       } catch (e) {
         res = 'throw=' + (e instanceof Object && !(e instanceof Error) ? ser(e) : errClass(e));
@@ -201,7 +236,7 @@ async function runOneAsync(code, c) {
       let res;
       try {
         const args = makeArgs(spec, log);
-        let r = f.apply(undefined, [H].concat(args));
+        let r = f.apply(mkU('T', log), [H].concat(args));
         if (r && typeof r.then === 'function') {
           r = await Promise.race([r, new Promise((_, rej) => setTimeout(() => rej(new Error('verif-timeout')), 2000))]);
           res = 'aret=' + ser(r);
